@@ -5,6 +5,7 @@ import (
 	"flag"
 	"fmt"
 	"github.com/jimlambrt/gldap"
+	"sync"
 	"time"
 
 	"verif/harness/internal/berx"
@@ -28,6 +29,11 @@ type dEvent struct {
 	B     bool                `json:"b"`
 	Code  int                 `json:"code"`
 	Found map[string][]dEntry `json:"found,omitempty"`
+	Codes map[string]int      `json:"codes,omitempty"`    // result code of each of those searches
+	Gen   map[string][]dEntry `json:"gen,omitempty"`      // the same DNs through the route without base DN (base = entry DN)
+	GCode map[string]int      `json:"gcodes,omitempty"`
+	SID   map[string][]dEntry `json:"sid,omitempty"`      // base <SID=...>: token groups
+	SCode map[string]int      `json:"sidcodes,omitempty"`
 	Trace int                 `json:"trace,omitempty"`
 	Err   string              `json:"err,omitempty"`
 }
@@ -50,6 +56,7 @@ func newDir20Sym() *dirSym {
 	m := map[string]string{"": "",
 		"u1": "cn=" + n[0] + "," + userBase, "u2": "cn=" + n[1] + "," + userBase, "n1": "cn=" + n[2] + "," + userBase, "n2": "cn=" + n[3] + "," + userBase,
 		"g1": "cn=" + n[4] + "," + groupBase, "mz": "cn=" + n[5] + "," + userBase,
+		"t1": "cn=tg " + n[4] + ",ou=tokens,dc=example,dc=org", "t2": "cn=tg2-" + n[0] + ",ou=tokens,dc=example,dc=org", "S1": "S-1-5-21-" + fmt.Sprint(1000+r.Intn(9000)), "S9": "S-1-9-9",
 		"v1": v[0], "v2": v[1], "v3": v[2], "p": pw[0], "q": pw[1],
 		"a1": "description", "a2": "mail", "a3": "sn", "password": "password", "member": "member"}
 	return &dirSym{m: m}
@@ -99,7 +106,6 @@ func (d *dirClient) simple(op *berx.Node, want int) (int, error) {
 }
 
 func (d *dirClient) search(base, dn string, rev map[string]string) ([]dEntry, int, error) {
-	d.msgid += 5
 	// "(<dn>)" is the equality filter <first rdn attr>=<rest>
 	eq := -1
 	for i := 0; i < len(dn); i++ {
@@ -108,7 +114,11 @@ func (d *dirClient) search(base, dn string, rev map[string]string) ([]dEntry, in
 			break
 		}
 	}
-	f := lx.FilterEq(dn[:eq], dn[eq+1:])
+	return d.searchF(base, lx.FilterEq(dn[:eq], dn[eq+1:]), rev)
+}
+
+func (d *dirClient) searchF(base string, f *berx.Node, rev map[string]string) ([]dEntry, int, error) {
+	d.msgid += 5
 	if err := d.c.Send(lx.Envelope(d.msgid, lx.SearchReq(base, 2, 0, 0, 0, false, f, nil), nil)); err != nil {
 		return nil, -1, err
 	}
@@ -209,6 +219,8 @@ func c20Worker(w, par int, bs []dBehaviour, sym *dirSym, parts [][]dEvent) error
 		defer c.Close()
 		clients[i] = &dirClient{c: c, msgid: int64(1000 * (i + 1))}
 	}
+	var tgMu sync.Mutex // per directory: the token groups the behaviour installed last
+	var curTG map[string][]*gldap.Entry
 	if c20Churn {
 		stopChurn := make(chan struct{})
 		defer close(stopChurn)
@@ -227,7 +239,9 @@ func c20Worker(w, par int, bs []dBehaviour, sym *dirSym, parts [][]dEvent) error
 				} else {
 					d.D.SetControls()
 				}
-				d.D.SetTokenGroups(map[string][]*gldap.Entry{"S-1-1": nil})
+				tgMu.Lock() // re-installs what the behaviour last installed (the model holds the token groups)
+				d.D.SetTokenGroups(curTG)
+				tgMu.Unlock()
 				time.Sleep(50 * time.Microsecond)
 			}
 		}()
@@ -262,11 +276,19 @@ func c20Worker(w, par int, bs []dBehaviour, sym *dirSym, parts [][]dEvent) error
 	initGroups := []dEntry{{DN: "g1", Attrs: []dAttr{{"member", []string{"u1"}}}}}
 	opcode := map[string]int64{"add": 0, "delete": 1, "replace": 2}
 	turn := 0
+	tg1 := map[string][]*gldap.Entry{sym.c("S1"): sym.entries([]dEntry{{DN: "t1", Attrs: []dAttr{{"a1", []string{"v1"}}}}, {DN: "t2", Attrs: []dAttr{}}})}
+	setTG := func(m map[string][]*gldap.Entry) {
+		tgMu.Lock()
+		curTG = m
+		d.D.SetTokenGroups(m)
+		tgMu.Unlock()
+	}
 	for bi := w; bi < len(bs); bi += par {
 		evs := []dEvent{{Op: "reset", Trace: bi + 1, Attrs: []dAttr{}, Chs: []dChange{}}}
 		d.D.SetUsers(sym.entries(initUsers)...)
 		d.D.SetGroups(sym.entries(initGroups)...)
 		d.D.SetAllowAnonymousBind(false)
+		setTG(nil)
 		for _, ev := range bs[bi].Behaviour {
 			cl := clients[turn%2]
 			turn++
@@ -313,26 +335,48 @@ func c20Worker(w, par int, bs []dBehaviour, sym *dirSym, parts [][]dEvent) error
 				d.D.SetGroups()
 			case "setanon":
 				d.D.SetAllowAnonymousBind(ev.B)
+			case "settokengroups":
+				if ev.DN == "tg1" {
+					setTG(tg1)
+				} else {
+					setTG(nil)
+				}
 			default:
 				err = fmt.Errorf("unknown op %q", ev.Op)
 			}
 			if err != nil {
 				return fmt.Errorf("behaviour %d op %s: %w", bi+1, ev.Op, err)
 			}
-			o.Found = map[string][]dEntry{}
+			o.Found, o.Codes, o.Gen, o.GCode, o.SID, o.SCode = map[string][]dEntry{}, map[string]int{}, map[string][]dEntry{}, map[string]int{}, map[string][]dEntry{}, map[string]int{}
 			scl := clients[turn%2] // the other client looks
 			for _, dn := range []string{"u1", "u2", "n1", "n2", "mz"} {
-				es, _, err := scl.search(userBase, sym.c(dn), rev)
+				es, code, err := scl.search(userBase, sym.c(dn), rev)
 				if err != nil {
 					return fmt.Errorf("behaviour %d search %s: %w", bi+1, dn, err)
 				}
-				o.Found[dn] = es
+				o.Found[dn], o.Codes[dn] = es, code
 			}
-			es, _, err := scl.search(groupBase, sym.c("g1"), rev)
+			es, code, err := scl.search(groupBase, sym.c("g1"), rev)
 			if err != nil {
 				return fmt.Errorf("behaviour %d search g1: %w", bi+1, err)
 			}
-			o.Found["g1"] = es
+			o.Found["g1"], o.Codes["g1"] = es, code
+			// the route without base DN: base = the entry's DN
+			for _, dn := range []string{"u1", "n1", "g1", "mz"} {
+				es, code, err := scl.search(sym.c(dn), sym.c(dn), rev)
+				if err != nil {
+					return fmt.Errorf("behaviour %d generic search %s: %w", bi+1, dn, err)
+				}
+				o.Gen[dn], o.GCode[dn] = es, code
+			}
+			// ... and base <SID=...> (the filter matches no DN)
+			for _, sid := range []string{"S1", "S9"} {
+				es, code, err := scl.searchF("<SID="+sym.c(sid)+">", lx.FilterEq("objectClass", "nonesuch"), rev)
+				if err != nil {
+					return fmt.Errorf("behaviour %d SID search %s: %w", bi+1, sid, err)
+				}
+				o.SID[sid], o.SCode[sid] = es, code
+			}
 			evs = append(evs, o)
 		}
 		parts[bi] = evs
